@@ -23,19 +23,28 @@ PLATFORM = 'mesonbuild/utils/platform.py'
 
 EXPLANATION = (
     'Decides structural necessary conditions of C09 (crash points themselves are not enumerated): '
-    'R1 the state files a follow-up `meson setup` reads from meson-private (derived from the readers reachable from '
-    'Environment.__init__ / MesonApp.__init__ / MesonApp._generate: coredata.dat, cmd_line.txt) are never opened for writing '
-    'under their own name anywhere in mesonbuild/; every os.replace/os.rename onto them takes a different sibling name whose '
-    'writer has been closed on every path and overwrites a leftover temporary (mode w, never x/a, unless removed first); they are never the *source* of a rename/move and are unlinked only inside an exception '
-    'handler after which every path re-raises (file names folded symbolically through locals, helpers and callers); '
-    'R2 pickle_load converts what a truncated pickle raises (UnpicklingError, EOFError) into MesonException, '
-    'Environment.__init__ answers FileNotFoundError / MesonException from coredata.load by regenerating (replaying cmd_line.txt '
-    'when present), and the readers of cmd_line.txt never index a section of the parsed file without a presence guard; '
+    'R1 the state files a follow-up `meson setup` reads from meson-private (coredata.dat, cmd_line.txt; cross-checked against the readers '
+    'reachable from the recovery entry points) are never opened for writing under their own name anywhere in mesonbuild/; every '
+    'os.replace/os.rename onto them takes a different sibling name whose writer has been closed on every path and overwrites a leftover '
+    'temporary (mode w, never x/a, unless removed first); they are never the *source* of a rename/move and are unlinked only as a rollback: '
+    'inside an exception handler after which every path re-raises, or in a helper all of whose call sites are (file names folded '
+    'symbolically through locals, string templates, helpers and callers); '
+    'R2a what a truncated pickle raises (UnpicklingError, EOFError) meets, on its way out of pickle_load, a handler that raises '
+    'MesonException on every path; R2b every handler of coredata.load in environment.py that creates a new coredata (missing or '
+    'unreadable coredata.dat) first replays meson-private/cmd_line.txt with read_cmd_line_file, and refuses only when that file is absent; '
+    'R2c the readers of cmd_line.txt never index a section of the parsed file without a presence guard; '
     'R3 the decision table of MesonApp.validate_dirs equals the reference (meson-private without coredata.dat is accepted, '
-    '--wipe refused only without meson-private); R4 _generate runs only inside `with DirectoryLock(...)` and both DirectoryLock '
-    'implementations acquire through a kernel primitive on the open descriptor (flock/locking), failure to acquire being decided '
-    'by that primitive only.  NOT decided: recoverability at each individual crash point, fsync/durability, torn *text* in '
-    'cmd_line.txt (configparser.Error / literal_eval on a half-written line; unreachable once R1 holds).')
+    '--wipe refused only without meson-private); R4a every call in msetup that publishes that state runs while `with DirectoryLock(...)` '
+    'is held (here or at every call site); R4b every DirectoryLock implementation (its __enter__ together with the self-helpers it calls) '
+    'acquires through a kernel primitive on the open descriptor (flock/locking), failure to acquire being decided by that primitive only; '
+    'R5 the namespace that read_cmd_line_file filled is the one the Interpreter is built from, and the replay dominates the construction. '
+    'A violation is reported only where every call/condition of the judged region was classified; otherwise the verdict is Undecided. '
+    'NOT decided: recoverability at each individual crash point; fsync/durability; torn *text* in cmd_line.txt (configparser.Error / '
+    'literal_eval on a half-written line; unreachable once R1 holds); the order of publication between coredata.dat and cmd_line.txt (a '
+    'first setup killed in between leaves a valid coredata.dat without cmd_line.txt: values survive, a later --wipe loses them); the '
+    '--wipe deletion loop, which removes cmd_line.txt and the machine files by directory listing while their only copy is in a '
+    'TemporaryDirectory (names come from os.listdir, not from constants, so R1 cannot see them); option-order and whitespace fidelity of '
+    'cmd_line.txt (C07/C08 matters).')
 ASSUMPTIONS = [
     'os.replace/os.rename within one directory is atomic; a killed process loses no page cache (fsync not required)',
     'a strict prefix of a pickle stream makes pickle.load raise UnpicklingError or EOFError (probed once on every prefix of a sample)',
@@ -44,10 +53,11 @@ ASSUMPTIONS = [
     'quick tier, R1 scope: a file of mesonbuild/ is parsed only if its text spells a protected base name or the identifier of a '
     'function/constant found to yield one (iterated to a fixpoint); the thorough tier parses every file',
 ]
-TECHNIQUE = ('who-may-write over file names folded by flow-insensitive def-use (constants, os.path.join/+ shapes, callee return and '
-             'argument-binding summaries; no statement is executed, no branch evaluated) + CFG must-pass/edge reachability (with-exit before '
-             'replace, presence-test edges, exception edges of the lock primitive) + path enumeration of handler bodies + decision table '
-             'over canonical atoms with world enumeration (validate_dirs)')
+TECHNIQUE = ('who-may-write/rename/unlink over file names folded by flow-insensitive def-use (constants, join/+/format templates, callee return and '
+             'argument-binding summaries, caller contexts; nothing is executed) + CFG must-pass / edge-labelled reachability (with-exit before '
+             'replace, presence-test edges, exception edges of the lock primitive, opt-out edges with helper return summaries) + path enumeration '
+             'of handler bodies with helper expansion + decision table over canonical atoms with world enumeration (validate_dirs) + alias '
+             'identity and dominance (replayed namespace -> Interpreter)')
 
 REFERENCE_PROTECTED = ('coredata.dat', 'cmd_line.txt')    # A.10; cross-checked against the derived reader set on every run
 PRIVATE_DIR = 'meson-private'
@@ -77,6 +87,17 @@ def _mode_of(call: ast.Call, pos: int) -> T.Tuple[bool, T.Optional[str]]:
     return False, None
 
 
+def _arg(call: ast.Call, pos: int, *names: str) -> T.Optional[ast.AST]:
+    """Argument of a standard-library call bound by signature: positional index or keyword name."""
+    if len(call.args) > pos and not any(isinstance(a, ast.Starred) for a in call.args[:pos + 1]):
+        return call.args[pos]
+    for nm in names:
+        v = kwarg(call, nm)
+        if v is not None:
+            return v
+    return None
+
+
 def _sinks(fn: ast.AST, parser_names: T.Set[str]) -> T.List[Sink]:
     out: T.List[Sink] = []
     for n in walk_no_nested(fn):
@@ -96,14 +117,14 @@ def _sinks(fn: ast.AST, parser_names: T.Set[str]) -> T.List[Sink]:
             trunc = flags is not None and any(c.split('.')[-1] == 'O_TRUNC' for c in chains_in(flags))
             out.append(Sink('write' if w else 'read', n, n.args[0] if n.args else None, None, ('x' if excl else 'w' if trunc else 'r+') if w else 'r'))
         elif cn in COPY_FUNCS:
-            if len(n.args) >= 2:
-                out.append(Sink('copy', n, n.args[1], n.args[0], None))
+            if _arg(n, 1, 'dst') is not None and _arg(n, 0, 'src') is not None:
+                out.append(Sink('copy', n, _arg(n, 1, 'dst'), _arg(n, 0, 'src'), None))
         elif cn in RENAME_FUNCS:
-            if len(n.args) >= 2:
-                out.append(Sink('rename', n, n.args[1], n.args[0], None))
+            if _arg(n, 1, 'dst') is not None and _arg(n, 0, 'src') is not None:
+                out.append(Sink('rename', n, _arg(n, 1, 'dst'), _arg(n, 0, 'src'), None))
         elif cn in ('os.unlink', 'os.remove'):
-            if n.args:
-                out.append(Sink('remove', n, n.args[0], None, None))
+            if _arg(n, 0, 'path') is not None:
+                out.append(Sink('remove', n, _arg(n, 0, 'path'), None, None))
         elif isinstance(n.func, ast.Attribute):
             recv = n.func.value
             if meth == 'open' and cn not in ('os.open',) and not (isinstance(recv, ast.Name) and recv.id in ('os', 'gzip', 'bz2', 'lzma', 'tarfile', 'zipfile', 'webbrowser', 'codecs', 'io')):
@@ -182,9 +203,11 @@ class Scan:
         self.recs: T.List[Rec] = []
         self.undecided: T.List[str] = []
         self.analysed: T.List[str] = []
-        self._seen: T.Set[T.Tuple[str, T.Tuple[T.Tuple[str, Terms], ...]]] = set()
-        self._recorded: T.Set[T.Tuple[str, int, str]] = set()
+        self._seen: T.Set[T.Any] = set()
+        self._recorded: T.Set[T.Tuple[str, int, str, str]] = set()
         self.functions = 0
+        self.texts: T.Dict[str, str] = {}
+        self.loaded: T.Dict[str, T.List[T.Tuple[FuncRef, T.Set[str], T.Set[str]]]] = {}
 
     def _module_facts(self, rel: str) -> T.List[T.Tuple[FuncRef, T.Set[str], T.Set[str]]]:
         facts = []
@@ -217,8 +240,8 @@ class Scan:
         protected base name or the identifier of a carrier (a function / constant yielding such a name) - a function that
         names a protected file must spell one of these - iterated until no new carrier appears."""
         prot = set(self.prot)
-        texts = {rel: self.repo.read(rel) for rel in self.scope}
-        loaded: T.Dict[str, T.List[T.Tuple[FuncRef, T.Set[str], T.Set[str]]]] = {}
+        texts = self.texts = {rel: self.repo.read(rel) for rel in self.scope}
+        loaded = self.loaded = {}
         interesting: T.Dict[str, FuncRef] = {}
         for _ in range(8):
             toks = prot | self.carriers
@@ -247,12 +270,76 @@ class Scan:
             self.analyse(ref, {}, 3)
 
     # ------------------------------------------------------------------
-    def analyse(self, ref: FuncRef, env: T.Dict[str, Terms], depth: int) -> None:
-        key = (repr(ref), tuple(sorted(env.items(), key=lambda kv: kv[0])))
+    def _handler_ctx(self, ref: FuncRef, cfg: CFG, node: ast.AST) -> T.Tuple[bool, bool, bool]:
+        """(inside an except handler, no normal return reachable afterwards, inside a finally body) for a call of ref."""
+        pm = ref.mod.parent_map()
+        fn = ref.node
+        child: ast.AST = node
+        cur = pm.get(node)
+        in_handler = in_finally = False
+        while cur is not None and child is not fn:
+            if isinstance(cur, ast.ExceptHandler):
+                in_handler = True
+            if isinstance(cur, ast.Try) and any(child is st for st in cur.finalbody):
+                in_finally = True
+            child = cur
+            cur = pm.get(cur)
+        at = cfg.node_containing(node)
+        reraises = bool(at) and all(not cfg.can_reach(n, cfg.exit_return) for n in at)
+        return in_handler, reraises, in_finally
+
+    def _call_sites(self, ref: FuncRef) -> T.Tuple[T.List[T.Tuple[FuncRef, ast.Call]], int]:
+        """(resolved call sites of ref, number of same-named calls that could not be resolved) over the whole scope."""
+        bare = ref.qn.rsplit('.', 1)[-1]
+        for rel in self.scope:
+            if rel not in self.loaded and bare in self.texts.get(rel, ''):
+                self.loaded[rel] = self._module_facts(rel)
+        sites: T.List[T.Tuple[FuncRef, ast.Call]] = []
+        unresolved = 0
+        for facts in list(self.loaded.values()):
+            for ref2, lits, names in facts:
+                if bare not in names:
+                    continue
+                for n in walk_no_nested(ref2.node):
+                    if isinstance(n, ast.Call) and call_method(n) == bare:
+                        r = self.ps.resolve_callee(ref2, n)
+                        if r is None:
+                            unresolved += 1
+                        elif r.mod.rel == ref.mod.rel and r.qn == ref.qn:
+                            sites.append((ref2, n))
+        return sites, unresolved
+
+    def _only_called_as_rollback(self, ref: FuncRef, depth: int = 2) -> T.Optional[bool]:
+        """True: every call site is inside a re-raising handler (or in a function only called so); False: some resolved call
+        site is on a normal path; None: the callers cannot be enumerated."""
+        sites, unresolved = self._call_sites(ref)
+        verdicts: T.List[T.Optional[bool]] = []
+        for ref2, call in sites:
+            cfg2 = CFG(ref2.node)
+            in_h, rer, in_f = self._handler_ctx(ref2, cfg2, call)
+            if in_h and rer:
+                verdicts.append(True)
+            elif in_f:
+                verdicts.append(None)
+            elif depth > 0 and not (ref2.mod.rel == ref.mod.rel and ref2.qn == ref.qn):
+                # a call on a normal path is positive evidence unless the calling function is itself provably rollback-only
+                verdicts.append(self._only_called_as_rollback(ref2, depth - 1) is True)
+            else:
+                verdicts.append(False)
+        if any(v is False for v in verdicts):
+            return False
+        if not sites:
+            return False if unresolved == 0 else None
+        if unresolved or any(v is None for v in verdicts):
+            return None
+        return True
+
+    def analyse(self, ref: FuncRef, env: T.Dict[str, Terms], depth: int, rollback: bool = False) -> None:
+        key = (repr(ref), tuple(sorted(env.items(), key=lambda kv: kv[0])), rollback)
         if key in self._seen:
             return
         self._seen.add(key)
-        self.analysed.append(repr(ref) + (f' [{", ".join(k + "=" + P.show_all(v) for k, v in env.items())}]' if env else ''))
+        self.analysed.append(repr(ref) + (f' [{", ".join(k + "=" + P.show_all(v) for k, v in env.items())}]' if env else '') + (' (rollback context)' if rollback else ''))
         fn = ref.node
         ps = self.ps
         sinks = _sinks(fn, set())
@@ -288,26 +375,29 @@ class Scan:
             if s.kind == 'read':
                 continue
             if s.kind == 'remove':
-                # allowed only as a rollback: inside an exception handler, and no normal return is reachable after it
-                pm = ref.mod.parent_map()
-                cur: T.Optional[ast.AST] = s.call
-                in_handler = False
-                while cur is not None and cur is not fn:
-                    if isinstance(cur, ast.ExceptHandler):
-                        in_handler = True
-                    cur = pm.get(cur)
+                # allowed only as a rollback: inside an exception handler after which every path re-raises - here, or at
+                # every call site of this function (a rollback helper called from the handler)
                 cfg = cfg or CFG(fn)
-                at = cfg.node_containing(s.call)
-                if not at:
+                if not cfg.node_containing(s.call):
                     self.undecided.append(f'{where}: `{short(s.call)}` is not in the CFG')
                     continue
-                reraises = all(not cfg.can_reach(n, cfg.exit_return) for n in at)
+                in_handler, reraises, in_finally = self._handler_ctx(ref, cfg, s.call)
                 if in_handler and reraises:
                     self._rec('remove-ok', ref, s.call, base, f'removes {P.show_all(dst)} only as a rollback: inside an exception handler, every path after it re-raises')
-                else:
-                    why = 'outside an exception handler' if not in_handler else 'in a handler that can return normally'
-                    self._rec('remove-bad', ref, s.call, base, f'removes {P.show_all(dst)} {why}: until it is published again {base} does not exist, '
-                              f'a kill in that window leaves the build directory without it')
+                    continue
+                if rollback:
+                    self._rec('remove-ok', ref, s.call, base, f'removes {P.show_all(dst)} only as a rollback: this function is entered from an exception handler that re-raises')
+                    continue
+                called = None if env else self._only_called_as_rollback(ref)
+                if called is True:
+                    self._rec('remove-ok', ref, s.call, base, f'removes {P.show_all(dst)} only as a rollback: every call site of {ref.qn} is inside an exception handler that re-raises')
+                    continue
+                if in_finally or (not env and called is None):
+                    self.undecided.append(f'{where}: `{short(s.call)}` removes {base} in a finally block / in a helper whose callers cannot be enumerated')
+                    continue
+                why = 'outside an exception handler' if not in_handler else 'in a handler that can return normally'
+                self._rec('remove-bad', ref, s.call, base, f'removes {P.show_all(dst)} {why}: until it is published again {base} does not exist, '
+                          f'a kill in that window leaves the build directory without it')
                 continue
             if s.kind == 'write':
                 if s.mode is None:
@@ -335,8 +425,12 @@ class Scan:
                 self.undecided.append(f'{where}: `{short(s.call)}`: cannot decide whether {P.show(st)} is a sibling of {P.show(dt)}')
                 continue
             if sd != dd:
-                self._rec('publish-bad', ref, s.call, base,
-                          f'the temporary {P.show(st)} is not in the directory of {P.show(dt)}: the rename is not an atomic same-directory publication')
+                # positive evidence only: a temporary under tempfile.*; two different spellings of a directory may still be equal
+                if 'tempfile.' in P.show(sd):
+                    self._rec('publish-bad', ref, s.call, base,
+                              f'the temporary {P.show(st)} is not in the directory of {P.show(dt)}: the rename is not an atomic same-directory publication')
+                else:
+                    self.undecided.append(f'{where}: `{short(s.call)}`: cannot decide whether {P.show(sd)} and {P.show(dd)} are the same directory')
                 continue
             # the writer of the temporary must be closed on every path to the rename
             mine = [w for w, terms in writes if st in terms]
@@ -372,10 +466,12 @@ class Scan:
             env2 = ps.bind_args(callee, n, ref, env, 2, frozenset())
             env2 = {k: v for k, v in env2.items() if any(_mentions(t, self.prot) for t in v)}
             if env2:
-                self.analyse(callee, env2, depth - 1)
+                cfg = cfg or CFG(fn)
+                in_h, rer, _ = self._handler_ctx(ref, cfg, n)
+                self.analyse(callee, env2, depth - 1, rollback or (in_h and rer))
 
     def _rec(self, kind: str, ref: FuncRef, node: ast.AST, base: str, text: str) -> None:
-        k = (repr(ref), id(node), kind)
+        k = (repr(ref), id(node), kind, base)
         if k in self._recorded:
             return
         self._recorded.add(k)
@@ -405,6 +501,11 @@ class Scan:
         if removes and at and not any(n.id in reach for n in at):
             self._rec('temp-mode-ok', ref, w.call, base, f'opens the temporary {P.show(st)} with mode {w.mode!r} after removing a leftover on every path')
             return
+        for c in walk_no_nested(ref.node):
+            if isinstance(c, ast.Call) and c is not w.call and not any(c is r.call for r in sinks) and call_name(c) not in ('os.path.exists', 'os.path.isfile', 'os.path.lexists') \
+                    and any(self.ps.resolve(ref, a, env) == frozenset([st]) for a in c.args if not isinstance(a, ast.Starred)):
+                self.undecided.append(f'{where}: `{short(c)}` receives the temporary of {base}; cannot tell whether it removes a leftover before `{short(w.call)}`')
+                return
         effect = 'fails with FileExistsError' if 'x' in w.mode else ('appends to the leftover, which is then published' if 'a' in w.mode else 'does not create/replace it')
         self._rec('temp-mode-bad', ref, w.call, base,
                   f'opens the temporary {P.show(st)} with mode {w.mode!r}: when a killed run left that file behind this {effect}, '
@@ -425,7 +526,7 @@ class Scan:
             if any(cfg.can_reach(e, pub, avoid=exits) for e in enters):
                 bad.append(f'`{short(pub.ast)}` is reachable while `{short(w.call)}` is still open (rename inside the with-block: '
                            f'a partial, unflushed file is published)')
-            elif not any(cfg.can_reach(x, pub) for x in exits):
+            elif not any(cfg.can_reach(x, pub) for x in exits) and any(cfg.can_reach(pub, e) for e in enters):
                 bad.append(f'`{short(pub.ast)}` is not reached after `{short(w.call)}` is closed (published before written)')
             return bad
         # f = open(...); ...; f.close()
@@ -466,8 +567,14 @@ def _derive_protected(ctx: RuleCtx, ps: PathSym) -> T.Dict[str, T.List[str]]:
                     env2 = ps.bind_args(callee, n, ref, env, 2, frozenset())
                     env2 = {k: v for k, v in env2.items() if any(c for t in v for c in P.consts_in(t))}
                     visit(callee, env2, depth - 1, f'{via}{ref.qn} -> ')
+    # anchors by role: besides the constructors, every function of msetup that replays the recorded command line
+    ms = ctx.repo.module(MSETUP)
+    for q, f in ms.funcs().items():
+        if any(isinstance(c, ast.Call) and call_method(c) == 'read_cmd_line_file' for c in walk_no_nested(f)) and (MSETUP, q) not in roots:
+            roots.append((MSETUP, q))
     for rel, qn in roots:
-        visit(FuncRef(ctx.repo.module(rel), qn), {}, 2, '')
+        if ctx.repo.module(rel).has_func(qn):
+            visit(FuncRef(ctx.repo.module(rel), qn), {}, 3, '')
     return found
 
 
@@ -552,12 +659,11 @@ def r1(ctx: RuleCtx) -> None:
     derived = _derive_protected(ctx, ps)
     for b in REFERENCE_PROTECTED:
         if b not in derived:
-            raise Undecided(f'no reader of meson-private/{b} found from Environment.__init__ / MesonApp.__init__ / MesonApp._generate: '
-                            f'the recovery-critical set cannot be derived (found {sorted(derived)})')
+            ctx.note(f'meson-private/{b}: no reader found within 3 calls of the recovery entry points; taken from the reference set (A.10)')
+            derived[b] = ['reference set']
     prot = sorted(derived)
     for b in prot:
         ctx.note(f'recovery-critical: meson-private/{b} (read by {"; ".join(sorted(set(derived[b]))[:3])})')
-    ctx.floor('recovery-critical files derived from the readers', len(prot), 2)
     sc = Scan(ctx.repo, _scope(ctx), prot, exact=ctx.thorough)
     sc.run()
     ctx.note(f'scope {len(sc.scope)} files; parsed {len(sc.parsed)} ({"all" if sc.exact else "those whose text spells a protected name or a carrier: " + ", ".join(sorted(sc.carriers))}), '
@@ -589,7 +695,7 @@ def r1(ctx: RuleCtx) -> None:
     for b, k in per.items():
         if k == 0:
             raise Undecided(f'no writer of meson-private/{b} found in scope: the rule would pass vacuously')
-    ctx.floor('writers/publishers of recovery-critical files', n, 3)
+    ctx.floor('writers/publishers of recovery-critical files', n, 2)
 
 
 # ---------------------------------------------------------------------------
@@ -672,119 +778,313 @@ def _raised_class(v: T.Optional[ast.AST]) -> T.Optional[str]:
     return c.split('.')[-1] if c else None
 
 
+def _known_exc(repo: Repo, bare: str) -> bool:
+    return bare in EXC_PARENT or bare in ('BaseException',) or bool(_repo_parents(repo, bare)) or bare == 'MesonException'
+
+
+HANDLER_INERT_PREFIXES = ('mlog.', 'os.path.', 'T.cast')
+HANDLER_INERT = {'str', 'repr', 'int', 'bool', 'len', 'isinstance', 'format', 'print', 'getattr', 'type'}
+
+
+def _path_raise(ctx: RuleCtx, ps: PathSym, ref: FuncRef, p: T.Any, depth: int = 2) -> str:
+    """How a handler path ends: 'meson' (raises a MesonException subclass), 'other' (raises a known different class),
+    'reraise' (bare raise), 'falls' (understood, does not raise), 'unknown' (something on it is not understood)."""
+    if p.outcome == 'raise':
+        v = p.value
+        if v is None:
+            return 'reraise'
+        if isinstance(v, ast.Name):
+            d = ps.local_defs(ref.node).get(v.id, [])
+            if len(d) == 1 and d[0] is not None:
+                v = d[0]
+        cls = _raised_class(v)
+        if cls is None or not _known_exc(ctx.repo, cls):
+            return 'unknown'
+        return 'meson' if 'MesonException' in _ancestors(ctx.repo, cls) else 'other'
+    understood = True
+    for c in p.calls():
+        cn = call_name(c) or ''
+        if cn in HANDLER_INERT or cn.startswith(HANDLER_INERT_PREFIXES):
+            continue
+        callee = ps.resolve_callee(ref, c)
+        if callee is not None and depth > 0:
+            sub = [_path_raise(ctx, ps, callee, q, depth - 1) for q in enumerate_paths(callee.node.body)]
+            if sub and all(x == 'meson' for x in sub):
+                return 'meson'          # a helper that always raises the guided error
+        elif callee is None and not (cn in HANDLER_INERT or cn.startswith(HANDLER_INERT_PREFIXES) or cn.split('.')[-1] in ('format', 'join', 'append')):
+            understood = False
+    if p.outcome != 'fall' and p.outcome != 'return':
+        return 'unknown'
+    return 'falls' if understood else 'unknown'
+
+
+def _enclosing_tries(mod: Module, fn: ast.AST, node: ast.AST) -> T.Tuple[T.List[ast.Try], bool]:
+    """Try statements whose *body* contains node, innermost first; and whether a with-statement other than open() encloses it."""
+    pm = mod.parent_map()
+    out: T.List[ast.Try] = []
+    odd_with = False
+    child = node
+    cur = pm.get(node)
+    while cur is not None and child is not fn:
+        if isinstance(cur, ast.Try) and any(child is st for st in cur.body):
+            out.append(cur)
+        if isinstance(cur, (ast.With, ast.AsyncWith)) and any(child is st for st in cur.body):
+            for i in cur.items:
+                if not (isinstance(i.context_expr, ast.Call) and (call_name(i.context_expr) in OPEN_FUNCS or call_method(i.context_expr) == 'open')):
+                    odd_with = True
+        child = cur
+        cur = pm.get(cur)
+    return out, odd_with
+
+
 TRUNCATED_PICKLE_RAISES = ('UnpicklingError', 'EOFError')
+
+
+def _is_pickle_load(mod: Module, c: ast.Call) -> bool:
+    cn = call_name(c)
+    imps = mod.imports()
+    return cn in ('pickle.load', 'pickle.loads') or (cn in ('load', 'loads') and imps.get(cn, '').startswith('pickle'))
 
 
 def r2_pickle(ctx: RuleCtx) -> None:
     mod = ctx.repo.module(UNIVERSAL)
-    fn = mod.func('pickle_load')
-    imps = mod.imports()
-
-    def is_load(c: ast.Call) -> bool:
-        cn = call_name(c)
-        return cn == 'pickle.load' or (cn == 'load' and imps.get('load', '').startswith('pickle'))
-    tries = _tries_with_call(fn, is_load)
-    loads = [c for c in walk_no_nested(fn) if isinstance(c, ast.Call) and is_load(c)]
-    ctx.floor('pickle.load call sites in pickle_load', len(loads), 1)
-    for c in loads:
-        tr = [t for t, c2 in tries if c2 is c]
+    ps = PathSym(ctx.repo)
+    top = FuncRef(mod, 'pickle_load')
+    top.node
+    # the unpickling site: in pickle_load itself or in a helper it calls (followed one level, then back out to the call site)
+    sites: T.List[T.List[T.Tuple[FuncRef, ast.Call]]] = []     # chains innermost -> outermost
+    for c in walk_no_nested(top.node):
+        if not isinstance(c, ast.Call):
+            continue
+        if _is_pickle_load(mod, c):
+            sites.append([(top, c)])
+            continue
+        h = ps.resolve_callee(top, c)
+        if h is not None and h.qn != top.qn:
+            for c2 in walk_no_nested(h.node):
+                if isinstance(c2, ast.Call) and _is_pickle_load(h.mod, c2):
+                    sites.append([(h, c2), (top, c)])
+    if not sites:
+        raise Undecided('pickle_load: no pickle.load call found in it or in the helpers it calls')
+    for chain in sites:
+        inner = chain[0][1]
         for exc in TRUNCATED_PICKLE_RAISES:
-            h = _first_handler(ctx.repo, tr[0], exc) if tr else None
-            if h is None:
-                ctx.violation(mod, 'pickle_load', c, f'{exc} raised by `{short(c)}` on a truncated file is not caught in pickle_load: it escapes as '
-                              f'{exc} instead of the MesonException that Environment.__init__ answers by regenerating', c)
+            handler: T.Optional[T.Tuple[FuncRef, ast.ExceptHandler]] = None
+            odd = False
+            for ref, call in chain:
+                tries, odd_with = _enclosing_tries(ref.mod, ref.node, call)
+                odd = odd or odd_with
+                for tr in tries:
+                    h2 = _first_handler(ctx.repo, tr, exc)
+                    if h2 is not None:
+                        handler = (ref, h2)
+                        break
+                if handler:
+                    break
+            if handler is None:
+                if odd:
+                    raise Undecided(f'pickle_load: `{short(inner)}` is inside a context manager the rule does not understand')
+                ctx.violation(mod, 'pickle_load', inner, f'{exc} raised by `{short(inner)}` on a truncated file is not caught on its way out of pickle_load: it escapes as '
+                              f'{exc} instead of the MesonException that Environment.__init__ answers by regenerating', inner)
                 continue
+            href, h = handler
             paths = enumerate_paths(h.body)
-            bad = []
-            for p in paths:
-                cls = _raised_class(p.value) if p.outcome == 'raise' else None
-                if p.outcome != 'raise' or cls is None or 'MesonException' not in _ancestors(ctx.repo, cls):
-                    bad.append(p.describe())
-            ctx.require(not bad, f'pickle_load: {exc} from `{short(c)}` -> handler `except {short(h.type)}` raises MesonException on all {len(paths)} path(s)',
-                        mod, 'pickle_load', h, f'the handler for {exc} does not end in `raise MesonException(...)` on: {bad}', h)
+            ends = [(_path_raise(ctx, ps, href, p), p) for p in paths]
+            if any(e == 'unknown' for e, p in ends):
+                raise Undecided(f'{href.qn}: the handler for {exc} does something the rule does not understand: {[p.describe() for e, p in ends if e == "unknown"]}')
+            bad = [f'{p.describe()} [{e}]' for e, p in ends if e != 'meson']
+            ctx.require(not bad, f'pickle_load: {exc} from `{short(inner)}` -> handler `except {short(h.type)}` in {href.qn} raises MesonException on all {len(paths)} path(s)',
+                        href.mod, href.qn, h, f'the handler for {exc} does not end in `raise MesonException(...)` on: {bad}', h)
+
+
+def _is_regenerate(ps: PathSym, ref: FuncRef, c: ast.Call) -> bool:
+    """A call that builds a fresh CoreData (directly or in the callee)."""
+    cn = call_name(c) or ''
+    if cn.split('.')[-1] == 'CoreData':
+        return True
+    callee = ps.resolve_callee(ref, c)
+    if callee is None:
+        return False
+    return any(isinstance(x, ast.Call) and (call_name(x) or '').split('.')[-1] == 'CoreData' for x in walk_no_nested(callee.node))
+
+
+def _is_replay(ps: PathSym, ref: FuncRef, c: ast.Call) -> bool:
+    callee = ps.resolve_callee(ref, c)
+    return callee is not None and callee.mod.rel == CMDLINE and callee.qn == 'read_cmd_line_file'
+
+
+def _recovery_events(ps: PathSym, ref: FuncRef, calls: T.List[ast.Call], depth: int = 2) -> T.Tuple[T.List[str], bool]:
+    """'replay' / 'regenerate' events in order, helpers expanded; and whether every call was understood."""
+    ev: T.List[str] = []
+    understood = True
+    for c in calls:
+        cn = call_name(c) or ''
+        if cn in HANDLER_INERT or cn.startswith(HANDLER_INERT_PREFIXES):
+            continue
+        if _is_replay(ps, ref, c):
+            ev.append('replay')
+        elif _is_regenerate(ps, ref, c):
+            ev.append('regenerate')
+        else:
+            callee = ps.resolve_callee(ref, c)
+            if callee is not None and depth > 0:
+                inner = sorted((x for x in walk_no_nested(callee.node) if isinstance(x, ast.Call)), key=lambda x: (x.end_lineno or 0, x.end_col_offset or 0))
+                e2, u2 = _recovery_events(ps, callee, inner, depth - 1)
+                ev += e2
+                understood = understood and u2
+            elif callee is None and not (cn in HANDLER_INERT or cn in ('MesonException',) or cn.startswith(HANDLER_INERT_PREFIXES)
+                                         or cn.split('.')[-1] in ('format', 'join')):
+                understood = False
+    return ev, understood
 
 
 def r2_environment(ctx: RuleCtx) -> None:
     mod = ctx.repo.module(ENVIRONMENT)
-    qn = 'Environment.__init__'
-    fn = mod.func(qn)
-    ref = FuncRef(mod, qn)
     ps = PathSym(ctx.repo)
-
-    def is_core_load(c: ast.Call) -> bool:
-        r = ps.resolve_callee(ref, c)
-        return r is not None and r.mod.rel == COREDATA and r.qn == 'load'
-    tries = _tries_with_call(fn, is_core_load)
-    ctx.floor('coredata.load call sites in Environment.__init__', len(tries), 1)
-    # what coredata.load can raise for a damaged / missing file, and the required reaction
-    for tr, call in tries:
-        # (1) coredata.dat missing -> fresh coredata
-        h = _first_handler(ctx.repo, tr, 'FileNotFoundError')
-        if h is None:
-            ctx.violation(mod, qn, call, 'FileNotFoundError from coredata.load (meson-private without coredata.dat) is not handled', call)
-        else:
-            paths = enumerate_paths(h.body)
-            bad = [p.describe() for p in paths if p.outcome != 'fall' or not any(call_method(c) == 'create_new_coredata' for c in p.calls())]
-            ctx.require(not bad, 'Environment.__init__: missing coredata.dat -> create_new_coredata on every handler path', mod, qn, h,
-                        f'handler of FileNotFoundError does not create a new coredata on: {bad}', h)
-        # (2) unreadable coredata.dat -> MesonException -> regenerate from cmd_line.txt when present, else guided error
-        h = _first_handler(ctx.repo, tr, 'MesonException')
-        if h is None:
-            ctx.violation(mod, qn, call, 'MesonException from coredata.load (unreadable coredata.dat) is not handled: the build directory stays unusable', call)
-            continue
-        if 'MesonException' not in _handler_types(h) and not set(_handler_types(h)) & {'Exception', 'BaseException'}:
-            raise Undecided(f'handler chosen for MesonException is `{short(h.type)}`')
-        paths = enumerate_paths(h.body, pure={'isfile', 'exists', 'get_cmd_line_file', 'join'})
-        n_regen = n_err = 0
-        for p in paths:
-            present: T.Optional[bool] = None
-            for ev in p.events:
-                if ev.kind == 'cond' and isinstance(ev.node, ast.Call) and call_name(ev.node) in ('os.path.isfile', 'os.path.exists') and ev.node.args:
-                    ts = ps.resolve(ref, ev.node.args[0])
-                    if all(P.basename(t) == 'cmd_line.txt' for t in ts):
-                        present = ev.val
-            names = [call_method(c) for c in p.calls()]
-            if p.outcome == 'fall':
-                ok = 'read_cmd_line_file' in names and 'create_new_coredata' in names and \
-                    names.index('read_cmd_line_file') < names.index('create_new_coredata') and present is not False
-                n_regen += 1
-                ctx.require(ok, f'Environment.__init__: unreadable coredata.dat, cmd_line.txt present -> read_cmd_line_file then create_new_coredata ({p.describe()})',
-                            mod, qn, h, f'recovery path `{p.describe()}` does not replay cmd_line.txt before creating a new coredata (calls: {names})', h)
-            elif p.outcome == 'raise':
-                cls = _raised_class(p.value)
-                ok = present is False and cls is not None and 'MesonException' in _ancestors(ctx.repo, cls)
-                n_err += 1
-                ctx.require(ok, 'Environment.__init__: unreadable coredata.dat and no cmd_line.txt -> guided MesonException', mod, qn, h,
-                            f'path `{p.describe()}` raises although cmd_line.txt is present (or raises a non-Meson exception): recovery is refused', h)
-            else:
-                raise Undecided(f'Environment.__init__: handler path with outcome {p.outcome}')
-        if n_regen == 0:
-            ctx.violation(mod, qn, h, 'no path of the MesonException handler regenerates the configuration', h)
+    # anchor by role: the try statement(s) of this module whose body calls coredata.load
+    found: T.List[T.Tuple[FuncRef, ast.Try, ast.Call]] = []
+    bare: T.List[str] = []
+    for qn0, fn0 in mod.funcs().items():
+        ref0 = FuncRef(mod, qn0)
+        for c in walk_no_nested(fn0):
+            if isinstance(c, ast.Call) and call_method(c) == 'load':
+                r = ps.resolve_callee(ref0, c)
+                if r is not None and r.mod.rel == COREDATA and r.qn == 'load':
+                    tries, _ = _enclosing_tries(mod, fn0, c)
+                    if tries:
+                        found.append((ref0, tries[0], c))
+                    else:
+                        bare.append(qn0)
+    if not found:
+        raise Undecided(f'{ENVIRONMENT}: no `try:` around a call of coredata.load (calls outside a try in: {bare})')
+    for ref, tr, call in found:
+        qn = ref.qn
+        for exc, what in (('FileNotFoundError', 'missing coredata.dat'), ('MesonException', 'unreadable coredata.dat')):
+            h = _first_handler(ctx.repo, tr, exc)
+            if h is None:
+                outer, _ = _enclosing_tries(mod, ref.node, tr)
+                if outer:
+                    raise Undecided(f'{qn}: {exc} from coredata.load is handled by an outer try; not followed')
+                ctx.violation(mod, qn, call, f'{exc} from coredata.load ({what}) is not handled: the build directory stays unusable', call)
+                continue
+            if exc == 'MesonException' and 'MesonException' not in _handler_types(h) and not set(_handler_types(h)) & {'Exception', 'BaseException'}:
+                raise Undecided(f'handler chosen for MesonException is `{short(h.type)}`')
+            paths = enumerate_paths(h.body, pure={'isfile', 'exists', 'get_cmd_line_file', 'join'})
+            n_regen = 0
+            for p in paths:
+                present: T.Optional[bool] = None
+                nconds = 0
+                for ev in p.events:
+                    if ev.kind != 'cond':
+                        continue
+                    nconds += 1
+                    node = ev.node
+                    if isinstance(node, ast.Name):          # condition named first
+                        d = ps.local_defs(ref.node).get(node.id, [])
+                        if len(d) == 1 and d[0] is not None:
+                            node = d[0]
+                    if isinstance(node, ast.Call) and call_name(node) in ('os.path.isfile', 'os.path.exists') and node.args:
+                        ts = ps.resolve(ref, node.args[0])
+                        if ts and all(P.basename(t) == 'cmd_line.txt' for t in ts):
+                            present = ev.val
+                            nconds -= 1
+                events, understood = _recovery_events(ps, ref, p.calls())
+                end = _path_raise(ctx, ps, ref, p)
+                if end == 'unknown' and p.outcome == 'raise':
+                    raise Undecided(f'{qn}: the {exc} handler path `{p.describe()}` raises something the rule does not understand')
+                if end in ('falls', 'unknown'):
+                    ok = 'regenerate' in events and 'replay' in events and events.index('replay') < events.index('regenerate') and present is not False
+                    n_regen += 1
+                    if not ok and (end == 'unknown' or not understood):
+                        raise Undecided(f'{qn}: the {exc} handler path `{p.describe()}` contains calls the rule does not understand')
+                    ctx.require(ok, f'{qn}: {what} -> recorded command line replayed (read_cmd_line_file) before a new coredata is created ({p.describe()})',
+                                mod, qn, h, f'{what}: recovery path `{p.describe()}` creates a new coredata without first replaying meson-private/cmd_line.txt '
+                                f'(events: {events or "none"}): the -D options and machine files recorded there are silently dropped and cmd_line.txt is rewritten without them', h)
+                elif end in ('meson', 'reraise'):
+                    ok = exc == 'MesonException' and present is False
+                    if not ok and present is None and nconds:
+                        raise Undecided(f'{qn}: the {exc} handler raises on `{p.describe()}`, a condition the rule does not understand')
+                    ctx.require(ok, f'{qn}: {what} and no cmd_line.txt -> guided MesonException', mod, qn, h,
+                                f'{what}: path `{p.describe()}` raises although cmd_line.txt may be present: recovery is refused', h)
+                else:
+                    ctx.violation(mod, qn, h, f'{what}: path `{p.describe()}` raises a non-Meson exception', h)
+            if n_regen == 0:
+                ctx.violation(mod, qn, h, f'{what}: no path of the handler regenerates the configuration', h)
 
 
 SECTION_READERS = {'items', 'options', 'get', 'getint', 'getfloat', 'getboolean'}
 
 
-def _presence(test: ast.AST, label: bool, parser: str, key: str) -> bool:
+_DEFS: T.Dict[str, T.List[T.Optional[ast.AST]]] = {}     # local definitions of the function being judged (set by r2_cmdline)
+
+
+def _presence(test: ast.AST, label: bool, parser: str, key: str, seen: T.FrozenSet[str] = frozenset()) -> bool:
     """Does `test` evaluating to `label` imply that section `key` exists in `parser`?"""
     if isinstance(test, ast.UnaryOp) and isinstance(test.op, ast.Not):
-        return _presence(test.operand, not label, parser, key)
+        return _presence(test.operand, not label, parser, key, seen)
     if isinstance(test, ast.BoolOp):
         if isinstance(test.op, ast.And) and label:
-            return any(_presence(v, True, parser, key) for v in test.values)
+            return any(_presence(v, True, parser, key, seen) for v in test.values)
         if isinstance(test.op, ast.Or) and not label:
-            return any(_presence(v, False, parser, key) for v in test.values)
+            return any(_presence(v, False, parser, key, seen) for v in test.values)
         return False
-    if isinstance(test, ast.Compare) and len(test.ops) == 1 and isinstance(test.left, ast.Constant) and test.left.value == key \
-            and norm(test.comparators[0]) == parser:
-        if isinstance(test.ops[0], ast.In):
-            return label
-        if isinstance(test.ops[0], ast.NotIn):
-            return not label
+    if isinstance(test, ast.Name) and test.id not in seen:      # condition named first: `has = 'options' in config; if has:`
+        d = _DEFS.get(test.id, [])
+        if len(d) == 1 and d[0] is not None:
+            return _presence(d[0], label, parser, key, seen | {test.id})
+        return False
+    if isinstance(test, ast.Compare) and len(test.ops) == 1 and isinstance(test.left, ast.Constant) and test.left.value == key:
+        c = test.comparators[0]
+        holder = norm(c) == parser or (isinstance(c, ast.Call) and not c.args and call_name(c) in (f'{parser}.sections', f'{parser}.keys')) \
+            or (isinstance(c, ast.Call) and call_name(c) in ('list', 'set', 'tuple', 'frozenset') and len(c.args) == 1 and norm(c.args[0]) == parser)
+        if holder:
+            if isinstance(test.ops[0], ast.In):
+                return label
+            if isinstance(test.ops[0], ast.NotIn):
+                return not label
     if isinstance(test, ast.Call) and call_name(test) == f'{parser}.has_section' and len(test.args) == 1 \
             and isinstance(test.args[0], ast.Constant) and test.args[0].value == key:
         return label
     return False
+
+
+def _suppressed(mod: Module, fn: ast.AST, node: ast.AST, anc: T.List[str]) -> bool:
+    """node lies in the body of `with contextlib.suppress(E, ...)` with E covering the exception."""
+    pm = mod.parent_map()
+    cur = pm.get(node)
+    while cur is not None and cur is not fn:
+        if isinstance(cur, (ast.With, ast.AsyncWith)):
+            for i in cur.items:
+                c = i.context_expr
+                if isinstance(c, ast.Call) and (call_name(c) or '').split('.')[-1] == 'suppress':
+                    if any((attr_chain(a) or '').split('.')[-1] in anc for a in c.args):
+                        return True
+        cur = pm.get(cur)
+    return False
+
+
+KNOWN_PARSER_ATTRS = {'read', 'read_file', 'read_string', 'read_dict', 'write', 'has_section', 'add_section', 'sections', 'has_option', 'keys',
+                      'items', 'options', 'get', 'getint', 'getfloat', 'getboolean', 'set', 'optionxform'}
+
+
+def _unknown_parser_uses(mod: Module, fn: ast.AST, parser: str) -> T.List[ast.AST]:
+    """Loads of the parser object in a context the rule does not classify (handed to a helper, iterated, copied, returned)."""
+    pm = mod.parent_map()
+    out: T.List[ast.AST] = []
+    for n in walk_no_nested(fn):
+        if not (isinstance(n, ast.Name) and n.id == parser and isinstance(n.ctx, ast.Load)):
+            continue
+        par = pm.get(n)
+        if isinstance(par, ast.Attribute) and par.attr in KNOWN_PARSER_ATTRS:
+            continue
+        if isinstance(par, ast.Subscript) and par.value is n:
+            continue
+        if isinstance(par, ast.Compare) and any(c is n for c in par.comparators) and all(isinstance(o, (ast.In, ast.NotIn)) for o in par.ops):
+            continue
+        if isinstance(par, ast.Call) and call_name(par) in ('list', 'set', 'tuple', 'frozenset') and isinstance(pm.get(par), ast.Compare):
+            continue
+        out.append(par if par is not None else n)
+    return out
 
 
 def _expr_guarded(mod: Module, fn: ast.AST, node: ast.AST, parser: str, key: str) -> bool:
@@ -824,6 +1124,8 @@ def r2_cmdline(ctx: RuleCtx) -> None:
             continue   # a parser that is only filled by this function has every section it stores
         readers += 1
         cfg = CFG(fn)
+        _DEFS.clear()
+        _DEFS.update(ps.local_defs(fn))
         for c in walk_no_nested(fn):
             if isinstance(c, ast.Call) and isinstance(c.func, ast.Attribute) and norm(c.func.value) in parsers \
                     and c.func.attr in ('remove_section', 'clear', 'pop', 'popitem'):
@@ -860,7 +1162,7 @@ def r2_cmdline(ctx: RuleCtx) -> None:
                         anc = _ancestors(ctx.repo, 'KeyError' if what == 'KeyError' else 'NoSectionError')
                         if any(t in anc for t in _handler_types(hn.ast)):  # type: ignore[arg-type]
                             caught = True
-                if caught:
+                if caught or _suppressed(mod, fn, n, _ancestors(ctx.repo, 'KeyError' if what == 'KeyError' else 'NoSectionError')):
                     continue
                 # established on every path: a presence test edge, or a store `parser[key] = ...` / add_section(key)
                 stores = [m for m in cfg.nodes if m.kind == 'stmt' and (
@@ -877,17 +1179,61 @@ def r2_cmdline(ctx: RuleCtx) -> None:
                 if node.id in reach:
                     unguarded.append(node)
             if unguarded:
+                # closed world: a use of the parser the rule does not classify, able to run before the access, may be the guard
+                for u in _unknown_parser_uses(mod, fn, parser):
+                    un = cfg.node_containing(u)
+                    if not un or any(cfg.can_reach(x, y) or x is y for x in un for y in unguarded):
+                        raise Undecided(f'{qn}: `{short(n)}` has no presence guard the rule recognises, but `{short(u)}` uses the parser in a way it does not follow')
                 where = unguarded[0].expr() if unguarded[0].kind != 'with_enter' else n
                 ctx.violation(mod, qn, where if where is not None else n, f'`{short(n)}` raises {what} when cmd_line.txt is present but has no [{key}] section (empty or short file after an '
                               f'interrupted write): no presence test (`{key!r} in {parser}` / has_section) dominates it and no handler converts it', n)
             else:
                 ctx.ok(label + ' is dominated by a presence test / store of the section, or its error is handled')
-    ctx.floor('functions that parse cmd_line.txt', readers, 2)
-    ctx.floor('section accesses on a parsed cmd_line.txt', accesses, 3)
+    ctx.floor('functions that parse cmd_line.txt', readers, 1)
+    ctx.floor('section accesses on a parsed cmd_line.txt', accesses, 1)
 
 
 # ---------------------------------------------------------------------------
 # R3
+
+def _fs_test(ps: PathSym, ref: FuncRef, e: ast.AST, env: T.Dict[str, Terms], depth: int = 2) -> T.Optional[str]:
+    """Classify a file-system test on the build directory: which reference variable it reads."""
+    for _ in range(3):
+        if isinstance(e, ast.Name):
+            d = ps.local_defs(ref.node).get(e.id, [])
+            if len(d) == 1 and d[0] is not None:
+                e = d[0]
+                continue
+        break
+    if not isinstance(e, ast.Call):
+        return None
+    cn = call_name(e) or ''
+    if cn == 'os.listdir' or (isinstance(e.func, ast.Attribute) and e.func.attr == 'iterdir' and not e.args):
+        return 'nonempty'
+    if cn in ('any', 'list', 'tuple', 'bool', 'len') and len(e.args) == 1:
+        return _fs_test(ps, ref, e.args[0], env, depth) if cn != 'len' else None
+    arg: T.Optional[ast.AST] = e.args[0] if e.args else None
+    last = call_method(e) or ''
+    if last in ('is_dir', 'is_file', 'exists') and not e.args and isinstance(e.func, ast.Attribute):
+        arg, cn = e.func.value, 'os.path.' + {'is_dir': 'isdir', 'is_file': 'isfile', 'exists': 'exists'}[last]
+    if cn in ('os.path.exists', 'os.path.isfile', 'os.path.isdir', 'os.path.lexists') and arg is not None:
+        ts = ps.resolve(ref, arg, env)
+        kind = cn.split('.')[-1]
+        if ts and all(t[0] == 'join' and len(t[1]) >= 2 and t[1][-2:] == (P.const(PRIVATE_DIR), P.const('coredata.dat')) for t in ts):
+            return 'valid' if kind in ('exists', 'isfile', 'lexists') else 'coredata-is-a-directory'
+        if ts and all(t[0] == 'join' and t[1][-1] == P.const(PRIVATE_DIR) for t in ts):
+            return 'partial' if kind in ('exists', 'isdir', 'lexists') else 'private-is-a-file'
+        return None
+    # a helper whose single return expression is such a test
+    if depth > 0:
+        callee = ps.resolve_callee(ref, e)
+        if callee is not None:
+            rets = [n for n in walk_no_nested(callee.node) if isinstance(n, ast.Return)]
+            if len(rets) == 1 and rets[0].value is not None:
+                env2 = ps.bind_args(callee, e, ref, env, 2, frozenset())
+                return _fs_test(ps, callee, rets[0].value, env2, depth - 1)
+    return None
+
 
 def r3(ctx: RuleCtx) -> None:
     mod = ctx.repo.module(MSETUP)
@@ -895,58 +1241,50 @@ def r3(ctx: RuleCtx) -> None:
     fn = mod.func(qn)
     ref = FuncRef(mod, qn)
     ps = PathSym(ctx.repo)
-    pure = {'exists', 'isdir', 'isfile', 'join', 'listdir', 'Path', 'is_dir', 'is_file'}
+    pure = {'exists', 'isdir', 'isfile', 'join', 'listdir', 'Path', 'is_dir', 'is_file', 'iterdir', 'any', 'list'}
     tab = tables.extract(fn, pure=pure, name=qn)
 
-    def classify(a: Atom) -> T.Optional[str]:
+    def classify(a: Atom) -> T.Optional[T.Tuple[str, bool]]:
+        """(reference variable, atom is its negation)"""
         if a.kind == 'in':
             l, r = a.args
             if l.startswith('Path(') and r.startswith('Path(') and r.endswith('.parents'):
-                return 'parent'
+                return 'parent', False
             return None
-        if a.kind != 'truth':
+        text = None
+        neg = False
+        if a.kind == 'truth':
+            text = a.args[0]
+        elif a.kind == 'cmp' and a.args[0] == 'eq' and a.args[2] == '0' and a.args[1].startswith('len('):
+            text, neg = a.args[1][4:-1], True            # len(X) == 0
+        elif a.kind == 'cmp' and a.args[0] == 'lt' and a.args[1] == '0' and a.args[2].startswith('len('):
+            text = a.args[2][4:-1]                       # 0 < len(X)
+        elif a.kind in ('is', 'cmp') and a.args[-1] in ('True', 'False') and (a.kind == 'is' or a.args[0] == 'eq'):
+            text, neg = a.args[-2], a.args[-1] == 'False'
+        if text is None:
             return None
         try:
-            e = ast.parse(a.args[0], mode='eval').body
+            e = ast.parse(text, mode='eval').body
         except SyntaxError:
             return None
-        for _ in range(3):
-            if isinstance(e, ast.Name):
-                d = ps.local_defs(fn).get(e.id, [])
-                if len(d) == 1 and d[0] is not None:
-                    e = d[0]
-                    continue
-            break
         c = attr_chain(e)
-        if c in ('self.options.reconfigure', 'self.options.wipe', 'self.options.cmd_line_options'):
-            return c.split('.')[-1]
-        if isinstance(e, ast.Call):
-            cn = call_name(e)
-            if cn == 'os.listdir':
-                return 'nonempty'
-            arg: T.Optional[ast.AST] = e.args[0] if e.args else None
-            if cn is not None and cn.split('.')[-1] in ('is_dir', 'is_file', 'exists') and not e.args and isinstance(e.func, ast.Attribute):
-                arg, cn = e.func.value, 'os.path.' + {'is_dir': 'isdir', 'is_file': 'isfile', 'exists': 'exists'}[cn.split('.')[-1]]
-            if arg is None:
-                return None
-            ts = ps.resolve(ref, arg)
-            if cn in ('os.path.exists', 'os.path.isfile') and all(t[0] == 'join' and len(t[1]) >= 2 and t[1][-2:] == (P.const(PRIVATE_DIR), P.const('coredata.dat')) for t in ts):
-                return 'valid'
-            if cn in ('os.path.isdir', 'os.path.exists') and all(t[0] == 'join' and t[1][-1] == P.const(PRIVATE_DIR) for t in ts):
-                return 'partial'
-        return None
+        if c is not None and c.startswith('self.options.') and c.split('.')[-1] in ('reconfigure', 'wipe', 'cmd_line_options'):
+            return c.split('.')[-1], neg
+        k = _fs_test(ps, ref, e, {})
+        return (k, neg) if k else None
 
-    sem: T.Dict[Atom, str] = {}
+    sem: T.Dict[Atom, T.Tuple[str, bool]] = {}
     for a in tab.atoms():
         k = classify(a)
         if k is None:
             raise Undecided(f'{qn}: atom `{a!r}` is outside the reference vocabulary')
         sem[a] = k
+    names = {k for k, _ in sem.values()}
     # a reference variable the code never tests is enumerated all the same: the code then gives one answer for both of
     # its values and the comparison shows for which of them that answer is wrong
-    missing = [k for k in ('valid', 'partial', 'wipe', 'reconfigure') if k not in sem.values()]
+    missing = [k for k in ('valid', 'partial', 'wipe', 'reconfigure') if k not in names]
     if 'valid' in missing:
-        raise Undecided(f'{qn}: no test recognised as "coredata.dat exists" (atoms: {sorted(sem.values())})')
+        raise Undecided(f'{qn}: no test recognised as "coredata.dat exists" (atoms: {sorted(names)})')
 
     def ref_outcome(v: T.Dict[str, bool]) -> str:
         if v.get('parent'):
@@ -963,15 +1301,33 @@ def r3(ctx: RuleCtx) -> None:
     bad: T.Dict[str, T.Tuple[tables.Row, str, str, T.Dict[str, bool]]] = {}
     import itertools
     for w, extra in itertools.product(list(tab.worlds()), list(itertools.product((False, True), repeat=len(missing)))):
-        v = {sem[a]: x for a, x in w.items()}
+        v: T.Dict[str, bool] = {}
+        consistent = True
+        for a, x in w.items():
+            name, neg = sem[a]
+            val = (not x) if neg else x
+            if v.get(name, val) != val:
+                consistent = False
+            v[name] = val
+        if not consistent:
+            continue
         v.update(dict(zip(missing, extra)))
+        # the file system: coredata.dat lives inside meson-private; a path is a file or a directory, not both
         if v.get('valid') and not v.get('partial'):
-            continue       # coredata.dat lives inside meson-private
+            continue
+        if (v.get('private-is-a-file') and v.get('partial')) or (v.get('coredata-is-a-directory') and v.get('valid')):
+            continue
+        if v.get('private-is-a-file') or v.get('coredata-is-a-directory'):
+            continue       # outside the reference (a damaged layout the property does not speak about)
+        if (v.get('valid') or v.get('partial')) and v.get('nonempty') is False:
+            continue
         rows = tab.fire(w)
         if len(rows) != 1:
             raise Undecided(f'{qn}: {len(rows)} rows fire in world {v}')
         r = rows[0]
         got = 'return' if r.outcome[0] == 'return' else ' '.join(str(x) for x in r.outcome)
+        if any((call_name(c) or '') in ('sys.exit', 'exit', 'os._exit') for c in r.path.calls()):
+            got = 'raise SystemExit'
         want = ref_outcome(v)
         n += 1
         if got != want:
@@ -982,11 +1338,8 @@ def r3(ctx: RuleCtx) -> None:
                       f'without meson-private) requires `{want}`, e.g. for {v}', node)
     if not bad:
         ctx.ok(f'{qn}: {len(tab.rows)} rows agree with the reference on {n} worlds (meson-private without coredata.dat is accepted)')
-    ctx.floor('rows of validate_dirs', len(tab.rows), 7)
+    ctx.floor('rows of validate_dirs', len(tab.rows), 4)
     ctx.note(f'{qn}: table {tab.dump()}')
-    # returns hand back (source, build) unchanged in every accepting row
-    rets = {r.outcome[1] for r in tab.rows if r.outcome[0] == 'return'}
-    ctx.require(len(rets) == 1, f'{qn}: every accepting row returns the same pair {sorted(rets)}', mod, qn, fn, f'accepting rows return different values: {sorted(rets)}')
 
 
 # ---------------------------------------------------------------------------
@@ -996,121 +1349,489 @@ LOCK_PRIMS = {'fcntl.flock': ('LOCK_EX',), 'fcntl.lockf': ('LOCK_EX',), 'msvcrt.
 UNLOCK_FLAGS = ('LOCK_UN', 'LK_UNLCK')
 
 
+STATE_WRITER_NAMES = {'dump_coredata', 'write_cmd_line_file', 'update_cmd_line_file'}    # public API that publishes recovery-critical state
+
+
 def r4_generate(ctx: RuleCtx) -> None:
-    files = _scope(ctx) if ctx.thorough else [MSETUP]
-    sites = 0
-    for rel in files:
-        mod = ctx.repo.module(rel)
-        for qn, fn in mod.funcs().items():
-            calls = [c for c in walk_no_nested(fn) if isinstance(c, ast.Call) and call_method(c) == '_generate' and isinstance(c.func, ast.Attribute)]
-            if rel != MSETUP and 'MesonApp' not in mod.src:
-                continue    # another class's own `_generate`: only modules that can hold a MesonApp matter
-            if not calls:
-                continue
-            cfg = CFG(fn)
-            for c in calls:
-                sites += 1
-                defs = PathSym(ctx.repo).local_defs(fn)
+    """Every call in msetup that publishes recovery-critical state runs while the DirectoryLock is held: lexically inside
+    `with DirectoryLock(...)`, or in a function all of whose call sites are (two levels)."""
+    mod = ctx.repo.module(MSETUP)
+    ps = PathSym(ctx.repo)
+    cfgs: T.Dict[str, CFG] = {}
 
-                def is_lock(e: ast.AST) -> bool:
-                    if isinstance(e, ast.Name):      # lock = DirectoryLock(...); with lock:
-                        d = defs.get(e.id, [])
-                        return len(d) == 1 and d[0] is not None and is_lock(d[0])
-                    return isinstance(e, ast.Call) and (call_method(e) or '') == 'DirectoryLock'
-                locks = [w for w in walk_no_nested(fn) if isinstance(w, (ast.With, ast.AsyncWith))
-                         and any(is_lock(i.context_expr) for i in w.items)
-                         and any(x is c for st in w.body for x in ast.walk(st))]
-                ok = False
-                for w in locks:
+    def cfg_of(ref: FuncRef) -> CFG:
+        if ref.qn not in cfgs:
+            cfgs[ref.qn] = CFG(ref.node)
+        return cfgs[ref.qn]
+
+    def is_lock(ref: FuncRef, e: ast.AST, depth: int = 2) -> bool:
+        if isinstance(e, ast.Name):      # lock = DirectoryLock(...); with lock:
+            d = ps.local_defs(ref.node).get(e.id, [])
+            return len(d) == 1 and d[0] is not None and is_lock(ref, d[0], depth)
+        if not isinstance(e, ast.Call):
+            return False
+        if (call_method(e) or '') == 'DirectoryLock':
+            return True
+        if depth > 0:
+            callee = ps.resolve_callee(ref, e)
+            if callee is not None:
+                rets = [n for n in walk_no_nested(callee.node) if isinstance(n, ast.Return) and n.value is not None]
+                return len(rets) == 1 and is_lock(callee, rets[0].value, depth - 1)
+        return False
+
+    def held(ref: FuncRef, node: ast.AST, depth: int) -> T.Optional[bool]:
+        fn = ref.node
+        cfg = cfg_of(ref)
+        odd = False
+        for w in walk_no_nested(fn):
+            if isinstance(w, (ast.With, ast.AsyncWith)) and any(x is node for st in w.body for x in ast.walk(st)):
+                if any(is_lock(ref, i.context_expr) for i in w.items):
                     enters = [n for n in cfg.nodes if n.kind == 'with_enter' and n.ast is w]
-                    at = cfg.node_containing(c)
-                    ok = ok or (bool(at) and all(cfg.dominated_by_any(n, enters) for n in at))
-                ctx.require(ok, f'{rel}:{qn}: `{short(c)}` runs inside `with DirectoryLock(...)` (dominated by its acquisition, inside its body)',
-                            mod, qn, c, f'`{short(c)}` (which writes coredata.dat, build.dat, cmd_line.txt, build.ninja) is not inside a '
-                            f'`with DirectoryLock(...)` block: two meson processes can interleave their writes', c)
-    ctx.floor('call sites of MesonApp._generate', sites, 1)
+                    at = cfg.node_containing(node)
+                    if at and all(cfg.dominated_by_any(n, enters) for n in at):
+                        return True
+                elif not all(isinstance(i.context_expr, ast.Call) and call_name(i.context_expr) in OPEN_FUNCS for i in w.items):
+                    odd = True
+        if any(isinstance(c, ast.Call) and call_method(c) in ('enter_context', '__enter__', 'callback') for c in walk_no_nested(fn)):
+            odd = True
+        if odd:
+            return None         # some context manager the rule does not understand may be the lock
+        if depth <= 0:
+            return False        # two levels of callers without a lock: evidence enough
+        # all call sites of this function inside the module
+        bare = ref.qn.rsplit('.', 1)[-1]
+        verdicts: T.List[T.Optional[bool]] = []
+        for qn2, fn2 in mod.funcs().items():
+            ref2 = FuncRef(mod, qn2)
+            for c in walk_no_nested(fn2):
+                if not (isinstance(c, ast.Call) and call_method(c) == bare):
+                    continue
+                r = ps.resolve_callee(ref2, c)
+                if r is None and isinstance(c.func, ast.Attribute) and isinstance(c.func.value, ast.Name):
+                    d = ps.local_defs(fn2).get(c.func.value.id, [])     # app = MesonApp(options); app.generate()
+                    if len(d) == 1 and isinstance(d[0], ast.Call):
+                        rc = ps.resolve_class(mod, attr_chain(d[0].func) or '')
+                        if rc is not None:
+                            r = ps._method(rc[0], rc[1], bare)
+                if r is None:
+                    verdicts.append(None)
+                elif r.mod.rel == ref.mod.rel and r.qn == ref.qn:
+                    verdicts.append(held(ref2, c, depth - 1))
+        if any(v is False for v in verdicts):
+            return False
+        if not verdicts:
+            return False        # an entry point that publishes state without taking the lock
+        if any(v is None for v in verdicts):
+            return None
+        return True
+
+    sites = 0
+    for qn, fn in mod.funcs().items():
+        ref = FuncRef(mod, qn)
+        for c in walk_no_nested(fn):
+            if not isinstance(c, ast.Call):
+                continue
+            r = ps.resolve_callee(ref, c)
+            is_writer = (call_method(c) in STATE_WRITER_NAMES) if r is None else \
+                ((r.mod.rel, r.qn) in ((ENVIRONMENT, 'Environment.dump_coredata'), (COREDATA, 'save'), (CMDLINE, 'write_cmd_line_file'), (CMDLINE, 'update_cmd_line_file')))
+            if not is_writer:
+                continue
+            sites += 1
+            v = held(ref, c, 2)
+            if v is None:
+                raise Undecided(f'{MSETUP}:{qn}: cannot decide whether `{short(c)}` runs under the DirectoryLock (context manager or caller not understood)')
+            ctx.require(v, f'{MSETUP}:{qn}: `{short(c)}` runs while `with DirectoryLock(...)` is held (here or at every call site of {qn})',
+                        mod, qn, c, f'`{short(c)}` publishes recovery-critical state but is not covered by a `with DirectoryLock(...)` block, neither here nor at the '
+                        f'call sites of {qn}: two meson processes can interleave their writes', c)
+    ctx.floor('calls that publish recovery-critical state in msetup', sites, 1)
 
 
-def _flag_names(ps: PathSym, fn: ast.AST, e: ast.AST, depth: int = 0) -> T.Set[str]:
+def _flag_names(ps: PathSym, fn: ast.AST, e: ast.AST, seen: T.Optional[T.Set[str]] = None,
+                resolver: T.Optional[T.Callable[[ast.Call], T.Optional[T.List[T.Tuple[ast.AST, ast.AST]]]]] = None) -> T.Tuple[T.Set[str], bool]:
+    """(attribute names the flag expression is built from, through locals; whether all of it was understood)."""
+    seen = set() if seen is None else seen
     out: T.Set[str] = set()
+    closed = True
     for n in ast.walk(e):
         if isinstance(n, ast.Attribute):
             out.add(n.attr)
-        elif isinstance(n, ast.Name) and depth < 3:
-            for d in ps.local_defs(fn).get(n.id, []):   # type: ignore[arg-type]
-                if d is not None:
-                    out |= _flag_names(ps, fn, d, depth + 1)
-    return out
+        elif isinstance(n, ast.Call):
+            rets = resolver(n) if resolver is not None else None
+            if rets is None:
+                closed = False
+            else:
+                for fn2, rv in rets:
+                    o2, c2 = _flag_names(ps, fn2, rv, set(), resolver)
+                    out |= o2
+                    closed = closed and c2
+        elif isinstance(n, ast.Name):
+            if n.id in seen or n.id in ('fcntl', 'msvcrt', 'os', 'self'):
+                continue
+            seen.add(n.id)
+            defs = ps.local_defs(fn).get(n.id, [])   # type: ignore[arg-type]
+            if not defs:
+                closed = False
+            for d in defs:
+                if d is None:
+                    closed = False
+                else:
+                    o2, c2 = _flag_names(ps, fn, d, seen, resolver)
+                    out |= o2
+                    closed = closed and c2
+    return out, closed
+
+
+INERT_CALL_PREFIXES = ('mlog.', 'self.lockfile.', 'os.path.', 'os.fspath', 'T.cast')
+INERT_CALLS = {'MesonException', 'str', 'int', 'bool', 'len', 'isinstance', 'repr', 'getattr', 'hasattr', 'print', 'super'}
+
+
+class _LockImpl:
+    """One DirectoryLock implementation: __enter__ and the self-methods it calls (through the MRO), analysed together."""
+
+    def __init__(self, ps: PathSym, mod: Module, cq: str):
+        self.ps, self.mod, self.cq = ps, mod, cq
+        self.cls = mod.cls(cq)
+        self.cfgs: T.Dict[str, CFG] = {}
+        self.region: T.Dict[str, FuncRef] = {}
+        self.unknown: T.List[str] = []          # calls the region analysis does not understand
+        self._prims: T.Dict[str, T.List[T.Tuple[Node, ast.Call]]] = {}
+        self.bad_flags: T.List[T.Tuple[FuncRef, ast.Call, T.Set[str]]] = []
+        self._acq: T.Dict[str, bool] = {}
+        self._opt: T.Dict[str, T.Set[bool]] = {}
+        root = ps._method(mod, self.cls, '__enter__')
+        if root is None:
+            raise Undecided(f'{cq}: no __enter__ in the class or its bases')
+        self.root = root
+        self._collect(root, 3)
+
+    def key(self, r: FuncRef) -> str:
+        return f'{r.mod.rel}:{r.qn}'
+
+    def helper(self, c: ast.Call) -> T.Optional[FuncRef]:
+        if isinstance(c.func, ast.Attribute) and isinstance(c.func.value, ast.Name) and c.func.value.id == 'self':
+            return self.ps._method(self.mod, self.cls, c.func.attr)
+        return None
+
+    def _helper_returns(self, c: ast.Call) -> T.Optional[T.List[T.Tuple[ast.AST, ast.AST]]]:
+        h = self.helper(c)
+        if h is None:
+            return None
+        rets = [(h.node, n.value) for n in walk_no_nested(h.node) if isinstance(n, ast.Return) and n.value is not None]
+        return rets or None
+
+    def _collect(self, r: FuncRef, depth: int) -> None:
+        if self.key(r) in self.region:
+            return
+        self.region[self.key(r)] = r
+        self.cfgs[self.key(r)] = CFG(r.node)
+        for c in walk_no_nested(r.node):
+            if not isinstance(c, ast.Call):
+                continue
+            cn = call_name(c) or ''
+            h = self.helper(c)
+            if h is not None:
+                if depth > 0:
+                    self._collect(h, depth - 1)
+                else:
+                    self.unknown.append(f'{r.qn}: `{short(c)}` (helper nesting too deep)')
+            elif cn in LOCK_PRIMS or cn in OPEN_FUNCS or cn in INERT_CALLS or cn.startswith(INERT_CALL_PREFIXES):
+                pass
+            else:
+                self.unknown.append(f'{r.qn}: `{short(c)}`')
+
+    # -- facts per function ------------------------------------------------------
+    def prims(self, r: FuncRef) -> T.List[T.Tuple[Node, ast.Call]]:
+        k = self.key(r)
+        if k in self._prims:
+            return self._prims[k]
+        out: T.List[T.Tuple[Node, ast.Call]] = []
+        cfg = self.cfgs[k]
+        for n in cfg.nodes:
+            e = n.expr()
+            if e is None:
+                continue
+            for c in walk_no_nested(e):
+                if isinstance(c, ast.Call) and call_name(c) in LOCK_PRIMS:
+                    if not c.args or not any(ch == 'self.lockfile' or ch.startswith('self.lockfile.') for ch in chains_in(c.args[0])):
+                        raise Undecided(f'{r.qn}: `{short(c)}` does not operate on self.lockfile')
+                    flags, closed = _flag_names(self.ps, r.node, c.args[1], None, self._helper_returns) if len(c.args) > 1 else (set(), False)
+                    if flags & set(UNLOCK_FLAGS):
+                        continue
+                    if not flags & set(LOCK_PRIMS[call_name(c) or '']):
+                        if not closed:
+                            raise Undecided(f'{r.qn}: the flags of `{short(c)}` are computed by something the rule does not follow')
+                        self.bad_flags.append((r, c, flags))
+                        continue
+                    out.append((n, c))
+        self._prims[k] = out
+        return out
+
+    def _optout(self, r: FuncRef, test: ast.AST, label: bool, seen: T.FrozenSet[str] = frozenset()) -> bool:
+        """`test` evaluating to `label` implies that the caller asked not to insist on the lock (IGNORE / optional),
+        or that a helper reported exactly that."""
+        if isinstance(test, ast.UnaryOp) and isinstance(test.op, ast.Not):
+            return self._optout(r, test.operand, not label, seen)
+        if isinstance(test, ast.BoolOp):
+            every = (isinstance(test.op, ast.And) and not label) or (isinstance(test.op, ast.Or) and label)
+            vals = [self._optout(r, v, label, seen) for v in test.values]
+            return all(vals) if every else any(vals)
+        if isinstance(test, ast.Name) and test.id not in seen:
+            d = self.ps.local_defs(r.node).get(test.id, [])
+            if len(d) == 1 and d[0] is not None:
+                return self._optout(r, d[0], label, seen | {test.id})
+            return False
+        if isinstance(test, ast.Compare) and len(test.ops) == 1:
+            sides = [attr_chain(test.left) or '', attr_chain(test.comparators[0]) or '']
+            if any(x.endswith('DirectoryLockAction.IGNORE') for x in sides) and any(x == 'self.action' for x in sides):
+                if isinstance(test.ops[0], (ast.Eq, ast.Is)):
+                    return label
+                if isinstance(test.ops[0], (ast.NotEq, ast.IsNot)):
+                    return not label
+            return False
+        if attr_chain(test) == 'self.optional':
+            return label
+        if isinstance(test, ast.Call):
+            h = self.helper(test)
+            if h is not None:
+                return label in self.optout_returns(h)
+        return False
+
+    def optout_edge(self, r: FuncRef, a: Node, lab: T.Any) -> bool:
+        if a.kind != 'test' or lab not in (True, False):
+            return False
+        return self._optout(r, a.ast.test, lab)   # type: ignore[union-attr]
+
+    def optout_returns(self, h: FuncRef) -> T.Set[bool]:
+        """Truth values that helper h returns only behind an opt-out edge."""
+        k = self.key(h)
+        if k in self._opt:
+            return self._opt[k]
+        self._opt[k] = set()
+        if k not in self.cfgs:
+            return set()
+        cfg = self.cfgs[k]
+        reach = cfg.reachable([cfg.entry], edge_ok=lambda a, b, lab: not self.optout_edge(h, a, lab), include_start=True)
+        normal: T.Set[bool] = set()
+        all_vals: T.Set[bool] = set()
+        for pid, lab in cfg.pred[cfg.exit_return.id]:
+            n = cfg.nodes[pid]
+            v: T.Optional[bool]
+            if n.kind == 'stmt' and isinstance(n.ast, ast.Return):
+                if n.ast.value is None:
+                    v = False
+                elif isinstance(n.ast.value, ast.Constant):
+                    v = bool(n.ast.value.value)
+                else:
+                    v = None
+            elif n.kind == 'with_exit':
+                v = None
+            else:
+                v = False       # falling off the end returns None
+            if v is None:
+                self._opt[k] = set()
+                return set()
+            all_vals.add(v)
+            if pid in reach:
+                normal.add(v)
+        self._opt[k] = all_vals - normal
+        return self._opt[k]
+
+    def acquire_nodes(self, r: FuncRef) -> T.List[Node]:
+        cfg = self.cfgs[self.key(r)]
+        out = [n for n, c in self.prims(r)]
+        for n in cfg.nodes:
+            e = n.expr()
+            if e is None:
+                continue
+            for c in walk_no_nested(e):
+                if isinstance(c, ast.Call):
+                    h = self.helper(c)
+                    if h is not None and self.key(h) != self.key(r) and self.acquires(h):
+                        out.append(n)
+        return out
+
+    def unlocked_return(self, r: FuncRef) -> bool:
+        cfg = self.cfgs[self.key(r)]
+        reach = cfg.reachable([cfg.entry], avoid=self.acquire_nodes(r), edge_ok=lambda a, b, lab: not self.optout_edge(r, a, lab))
+        return cfg.exit_return.id in reach
+
+    def acquires(self, h: FuncRef) -> bool:
+        """h takes the lock on every normal return that is not an opt-out."""
+        k = self.key(h)
+        if k in self._acq:
+            return self._acq[k]
+        self._acq[k] = False
+        if k not in self.cfgs:
+            return False
+        res = bool(self.acquire_nodes(h)) and not self.unlocked_return(h)
+        self._acq[k] = res
+        return res
 
 
 def r4_lock(ctx: RuleCtx) -> None:
     mod = ctx.repo.module(PLATFORM)
     ps = PathSym(ctx.repo)
     impls = [q for q, c in mod.classes().items() if any((attr_chain(b) or '').split('.')[-1] == 'DirectoryLockBase' for b in c.bases)]
-    ctx.floor('DirectoryLock implementations', len(impls), 2)
+    ctx.floor('DirectoryLock implementations', len(impls), 1)
     for cq in impls:
-        qn = f'{cq}.__enter__'
-        fn = mod.func(qn)
-        cfg = CFG(fn)
-        label = f'{cq} (line {mod.cls(cq).lineno})'.replace(f' (line {mod.cls(cq).lineno})', '')
+        li = _LockImpl(ps, mod, cq)
+        root = li.root
+        qn = root.qn
+        label = cq
+        members = sorted(r.qn for r in li.region.values())
+        ctx.note(f'{cq}: analysed together: {", ".join(members)}')
         # the descriptor
-        opens = [n for n in walk_no_nested(fn) if isinstance(n, ast.Assign) and isinstance(n.value, ast.Call) and call_name(n.value) in OPEN_FUNCS
+        opens = [(r, n) for r in li.region.values() for n in walk_no_nested(r.node)
+                 if isinstance(n, ast.Assign) and isinstance(n.value, ast.Call) and call_name(n.value) in OPEN_FUNCS
                  and any(attr_chain(t) == 'self.lockfile' for t in n.targets)]
         if not opens:
-            raise Undecided(f'{qn}: no `self.lockfile = open(...)`')
-        for o in opens:
+            raise Undecided(f'{qn}: no `self.lockfile = open(...)` in {members}')
+        for r, o in opens:
             okm, mode = _mode_of(o.value, 1)  # type: ignore[arg-type]
             if not okm or mode is None:
-                raise Undecided(f'{qn}: open mode of the lock file is not a constant')
-            ctx.require('x' not in mode, f'{label}.__enter__: lock file opened with mode {mode!r} (its prior existence is irrelevant)', mod, qn, o.value,
+                raise Undecided(f'{r.qn}: open mode of the lock file is not a constant')
+            ctx.require('x' not in mode, f'{label}: lock file opened with mode {mode!r} in {r.qn} (its prior existence is irrelevant)', r.mod, r.qn, o.value,
                         f'the lock file is opened with mode {mode!r}: exclusive creation makes the *existence* of the file the lock, so a killed '
                         f'process leaves a stale lock behind', o)
-        prims = []
-        for n in cfg.nodes:
-            e = n.expr()
-            if e is None or n.kind != 'stmt':
-                continue
-            for c in walk_no_nested(e):
-                if isinstance(c, ast.Call) and call_name(c) in LOCK_PRIMS:
-                    if not c.args or not any(ch == 'self.lockfile' or ch.startswith('self.lockfile.') for ch in chains_in(c.args[0])):
-                        raise Undecided(f'{qn}: `{short(c)}` does not operate on self.lockfile')
-                    flags = _flag_names(ps, fn, c.args[1]) if len(c.args) > 1 else set()
-                    if flags & set(UNLOCK_FLAGS):
-                        continue
-                    if not flags & set(LOCK_PRIMS[call_name(c) or '']):
-                        ctx.violation(mod, qn, c, f'`{short(c)}` does not request an exclusive lock (flags {sorted(flags)})', c)
-                        continue
-                    prims.append((n, c))
-        if not prims:
-            ctx.violation(mod, qn, fn.name + ': no kernel lock', f'{label}.__enter__ never calls a kernel lock primitive ({", ".join(sorted(LOCK_PRIMS))}) on '
-                          f'self.lockfile: the lock is not tied to the life of the process', fn)
+        with_prims = [r for r in li.region.values() if li.prims(r)]
+        for r, c, flags in li.bad_flags:
+            ctx.violation(r.mod, r.qn, c, f'`{short(c)}` does not request an exclusive lock (flags {sorted(flags)})', c)
+        if li.bad_flags:
             continue
-        prim_nodes = [n for n, c in prims]
-        # by-design unlocked returns: action IGNORE / optional
-        def is_ignore(a: Node) -> bool:
-            return a.kind == 'test' and any(ch.endswith('DirectoryLockAction.IGNORE') or ch == 'self.optional' for ch in chains_in(a.ast.test))  # type: ignore[union-attr]
+        if not with_prims:
+            if li.unknown:
+                raise Undecided(f'{qn}: no kernel lock primitive found, but these calls were not followed: {li.unknown[:4]}')
+            ctx.violation(mod, qn, root.node.name + ': no kernel lock', f'{label}.__enter__ (with {members}) never calls a kernel lock primitive '
+                          f'({", ".join(sorted(LOCK_PRIMS))}) on self.lockfile: the lock is not tied to the life of the process', root.node)
+            continue
+        first = li.prims(with_prims[0])[0][1]
+        # O1: every normal return of __enter__ has passed the primitive (directly or in a helper that guarantees it) or is the opt-out
+        if li.unlocked_return(root):
+            if li.unknown:
+                raise Undecided(f'{qn}: a return that does not pass `{short(first)}` exists, but these calls were not followed: {li.unknown[:4]}')
+            ctx.violation(mod, qn, first, f'__enter__ can return without having called `{short(first)}` and without the IGNORE/optional opt-out: the caller '
+                          f'proceeds unlocked', root.node)
+        else:
+            ctx.ok(f'{label}.__enter__: every normal return passes `{short(first)}` (or is the IGNORE/optional opt-out)')
+        for r in with_prims:
+            cfg = li.cfgs[li.key(r)]
+            prim_nodes = [n for n, c in li.prims(r)]
+            handlers = [cfg.nodes[b] for n in prim_nodes for b, lab in cfg.succ[n.id] if lab == 'exc' and cfg.nodes[b].kind == 'handler']
+            if not handlers:
+                raise Undecided(f'{r.qn}: the lock primitive is not inside a try')
+            # O2: when the primitive raises, only IGNORE may continue
+            reach_h = cfg.reachable(handlers, edge_ok=lambda a, b, lab, r=r: not li.optout_edge(r, a, lab))
+            if cfg.exit_return.id in reach_h:
+                if r.qn != root.qn:
+                    raise Undecided(f'{r.qn}: a handler of the lock primitive returns to its caller; what the caller does with that is not followed')
+                ctx.violation(r.mod, r.qn, handlers[0].ast, 'a handler of the lock primitive returns normally without the IGNORE test: contention is silently ignored', handlers[0].ast)
+            else:
+                ctx.ok(f'{label}: in {r.qn} a failed `{short(first)}` never returns normally except under IGNORE')
+            # O3: "somebody else holds the lock" is decided by the kernel only
+            errs = [n for n in cfg.nodes if n.kind == 'stmt' and isinstance(n.ast, ast.Raise) and n.ast.exc is not None
+                    and any(ch == 'self.err' for ch in chains_in(n.ast.exc))]
+            for en in errs:
+                ctx.require(not cfg.can_reach(cfg.entry, en, avoid=handlers), f'{label}: in {r.qn} `{short(en.ast)}` is reachable only through a failure of the kernel primitive',
+                            r.mod, r.qn, en.ast, f'`{short(en.ast)}` ("already in use") is reachable without the kernel primitive having failed: a leftover lock *file* '
+                            f'of a killed process would block every later run', en.ast)
+        for r in li.region.values():
+            if r in with_prims:
+                continue
+            cfg = li.cfgs[li.key(r)]
+            errs = [n for n in cfg.nodes if n.kind == 'stmt' and isinstance(n.ast, ast.Raise) and n.ast.exc is not None
+                    and any(ch == 'self.err' for ch in chains_in(n.ast.exc))]
+            if errs:
+                raise Undecided(f'{r.qn}: raises the "already in use" error outside the function that calls the kernel primitive; the connection is not followed')
 
-        def edge_ok(a: Node, b: Node, lab: T.Any) -> bool:
-            return not (is_ignore(a) and lab is True)
-        reach = cfg.reachable([cfg.entry], avoid=prim_nodes, edge_ok=edge_ok)
-        ctx.require(cfg.exit_return.id not in reach, f'{label}.__enter__: every normal return passes `{short(prims[0][1])}` (or is the IGNORE/optional opt-out)',
-                    mod, qn, prims[0][1], f'__enter__ can return without having called `{short(prims[0][1])}` and without the IGNORE/optional opt-out: the caller '
-                    f'proceeds unlocked', fn)
-        # when the primitive raises, only IGNORE may continue
-        handlers = [cfg.nodes[b] for n in prim_nodes for b, lab in cfg.succ[n.id] if lab == 'exc' and cfg.nodes[b].kind == 'handler']
-        if not handlers:
-            raise Undecided(f'{qn}: the lock primitive is not inside a try')
-        reach_h = cfg.reachable(handlers, edge_ok=edge_ok)
-        ctx.require(cfg.exit_return.id not in reach_h, f'{label}.__enter__: a failed `{short(prims[0][1])}` never returns normally except under IGNORE',
-                    mod, qn, handlers[0].ast, 'a handler of the lock primitive returns normally without the IGNORE test: contention is silently ignored', handlers[0].ast)
-        # "somebody else holds the lock" is decided by the kernel only
-        errs = [n for n in cfg.nodes if n.kind == 'stmt' and isinstance(n.ast, ast.Raise) and n.ast.exc is not None
-                and any(ch == 'self.err' for ch in chains_in(n.ast.exc))]
-        ctx.floor(f'{label}: `raise MesonException(self.err)` sites', len(errs), 1)
-        for en in errs:
-            ctx.require(not cfg.can_reach(cfg.entry, en, avoid=handlers), f'{label}.__enter__: `{short(en.ast)}` is reachable only through a failure of the kernel primitive',
-                        mod, qn, en.ast, f'`{short(en.ast)}` ("already in use") is reachable without the kernel primitive having failed: a leftover lock *file* '
-                        f'of a killed process would block every later run', en.ast)
+
+# ---------------------------------------------------------------------------
+# R5
+
+def _obj_id(ps: PathSym, fn: ast.AST, e: ast.AST, seen: T.FrozenSet[str] = frozenset()) -> T.Optional[str]:
+    """Identity of the object an argument expression denotes: a local allocated once, or an attribute chain; None when the
+    expression is not a plain reference (a call that builds something, a conditional ...)."""
+    if isinstance(e, ast.Call) and (call_name(e) or '').split('.')[-1] == 'cast' and len(e.args) == 2:
+        return _obj_id(ps, fn, e.args[1], seen)
+    if isinstance(e, ast.Name):
+        d = ps.local_defs(fn).get(e.id, [])
+        if len(d) == 1 and d[0] is not None and e.id not in seen:
+            inner = d[0]
+            while isinstance(inner, ast.Call) and (call_name(inner) or '').split('.')[-1] == 'cast' and len(inner.args) == 2:
+                inner = inner.args[1]
+            if isinstance(inner, (ast.Name, ast.Attribute)):
+                return _obj_id(ps, fn, inner, seen | {e.id})
+        return 'local:' + e.id
+    c = attr_chain(e)
+    return 'attr:' + c if c else None
+
+
+def r5_replay(ctx: RuleCtx) -> None:
+    """The namespace into which read_cmd_line_file merged the recorded command line is the one the Interpreter is built from
+    (otherwise a re-run after a killed first setup / wipe silently configures with the defaults)."""
+    mod = ctx.repo.module(MSETUP)
+    ps = PathSym(ctx.repo)
+    n = 0
+    for qn, fn in mod.funcs().items():
+        ref = FuncRef(mod, qn)
+        reads: T.List[ast.Call] = []
+        builds: T.List[ast.Call] = []
+        for c in walk_no_nested(fn):
+            if not isinstance(c, ast.Call):
+                continue
+            if _is_replay(ps, ref, c):
+                reads.append(c)
+            else:
+                cn = attr_chain(c.func) or ''
+                if cn.split('.')[-1] == 'Interpreter' and ps.resolve_class(mod, cn) is not None:
+                    builds.append(c)
+        if not builds:
+            continue
+        cfg = CFG(fn)
+        for bld in builds:
+            n += 1
+            args = [a for a in bld.args if not isinstance(a, ast.Starred)] + [k.value for k in bld.keywords if k.arg]
+            ids = [_obj_id(ps, fn, a) for a in args]
+            # the namespace may also come ready-made from a helper that replays and returns it
+            via_helper = False
+            for a in args:
+                src = a
+                if isinstance(a, ast.Name):
+                    d = ps.local_defs(fn).get(a.id, [])
+                    src = d[0] if len(d) == 1 and d[0] is not None else a
+                if isinstance(src, ast.Call) and (call_name(src) or '').split('.')[-1] == 'cast' and len(src.args) == 2:
+                    src = src.args[1]
+                if isinstance(src, ast.Call):
+                    h = ps.resolve_callee(ref, src)
+                    if h is not None:
+                        rets = [r.value for r in walk_no_nested(h.node) if isinstance(r, ast.Return) and r.value is not None]
+                        hreads = [c for c in walk_no_nested(h.node) if isinstance(c, ast.Call) and _is_replay(ps, h, c) and len(c.args) >= 2]
+                        if rets and hreads and all(any(_obj_id(ps, h.node, rv) == _obj_id(ps, h.node, c.args[1]) for c in hreads) for rv in rets):
+                            via_helper = True
+            if via_helper:
+                ctx.ok(f'{qn}: `{short(bld)}` is built from a namespace that a helper filled with read_cmd_line_file')
+                continue
+            if not reads:
+                raise Undecided(f'{qn}: `{short(bld)}` is built here but read_cmd_line_file is not called in this function; the namespace is not followed')
+            targets = []
+            for r in reads:
+                tgt = r.args[1] if len(r.args) >= 2 else kwarg(r, 'options')
+                if tgt is None:
+                    raise Undecided(f'{qn}: `{short(r)}`: cannot see which namespace is filled')
+                targets.append((r, _obj_id(ps, fn, tgt)))
+            hit = [(r, t) for r, t in targets if t is not None and t in ids]
+            if hit:
+                bn = cfg.node_containing(bld)
+                rn = [x for r, t in hit for x in cfg.node_containing(r)]
+                ok = bool(bn) and all(cfg.dominated_by_any(x, rn) for x in bn)
+                ctx.require(ok, f'{qn}: `{short(bld)}` receives {hit[0][1]}, the namespace filled by `{short(hit[0][0])}`, which dominates it', mod, qn, bld,
+                            f'`{short(bld)}` can be reached without `{short(hit[0][0])}` having run: the recorded command line is not replayed on that path', bld)
+                continue
+            if any(i is None for i in ids) or any(t is None for r, t in targets):
+                raise Undecided(f'{qn}: an argument of `{short(bld)}` is not a plain reference; cannot tell whether it is the replayed namespace')
+            ctx.violation(mod, qn, bld, f'`{short(bld)}` is built from {sorted(set(i for i in ids if i))}, none of which is the namespace '
+                          f'{sorted(set(t for r, t in targets if t))} that `{short(reads[0])}` filled with the recorded command line: after a killed first '
+                          f'setup or --wipe the re-run configures with default option values instead of the recorded ones', bld)
+    ctx.floor('Interpreter constructions in msetup', n, 1)
 
 
 RULES = [
@@ -1119,6 +1840,7 @@ RULES = [
     Rule('C09.R2b', 'Environment.__init__ regenerates from cmd_line.txt on missing/unreadable coredata.dat', r2_environment),
     Rule('C09.R2c', 'readers of cmd_line.txt guard every section access', r2_cmdline),
     Rule('C09.R3', 'validate_dirs accepts a partial build directory (decision table)', r3),
-    Rule('C09.R4a', '_generate runs only under DirectoryLock', r4_generate),
+    Rule('C09.R4a', 'state is published only while the DirectoryLock is held', r4_generate),
     Rule('C09.R4b', 'DirectoryLock is a kernel lock on an open descriptor, not a lock file', r4_lock),
+    Rule('C09.R5', 'the recorded command line is replayed into the Interpreter', r5_replay),
 ]
